@@ -21,7 +21,7 @@ def name(rng):
 
 def rtext(rng, n=None):
     n = rng.randint(0, 6) if n is None else n
-    return "".join(rng.choice(WS) if rng.random() < 0.5 else rng.choice(WORDS + ["<", "&", ">", '"']) for _ in range(n))
+    return "".join(rng.choice(WS) if rng.random() < 0.5 else rng.choice(WORDS + ["<", "&", ">", '"', "]]>", "a[b[0]]>1", "-->", "&amp;", "'"]) for _ in range(n))
 
 
 def emit_text(rng, s):
